@@ -50,7 +50,7 @@ impl C08 {
             out.inconclusive = Some(format!("shipped file {name}: decoder sees version {dv}, expected {v}"));
             return;
         }
-        let (re, layout) = encode(&facts, &EncodeOpts { version: v, emit_empty_parent_records: true, parent_record_order: None });
+        let (re, layout) = encode(&facts, &EncodeOpts { version: v, emit_empty_parent_records: true, parent_record_order: None, split_parent_records: None });
         if re != bytes {
             out.inconclusive = Some(format!("harness encoder does not reproduce {name} byte for byte ({} vs {} bytes)", re.len(), bytes.len()));
             return;
@@ -156,7 +156,8 @@ impl C08 {
         let view = facts.binary_view(v);
         let emit_empty = rng.chance(2, 3);
         let parent_order = if rng.chance(1, 2) { Some(rng.next_u64()) } else { None };
-        let (bytes, layout): (Vec<u8>, Layout) = encode(&view, &EncodeOpts { version: v, emit_empty_parent_records: emit_empty, parent_record_order: parent_order });
+        let split = if rng.chance(1, 3) { Some(rng.next_u64()) } else { None };
+        let (bytes, layout): (Vec<u8>, Layout) = encode(&view, &EncodeOpts { version: v, emit_empty_parent_records: emit_empty, parent_record_order: parent_order, split_parent_records: split });
         out.sig = hash_u64s(&[view.content_hash(), u64::from(v), u64::from(emit_empty)]);
         out.nontrivial = view.terms.len() >= 3;
         out.case = Json::obj()
@@ -199,7 +200,7 @@ impl C08 {
         if let Some(first) = &intact {
             for _ in 0..2 {
                 let perm = drive::permute(&view, OrderMode::Shuffled, rng);
-                let (b2, _) = encode(&perm, &EncodeOpts { version: v, emit_empty_parent_records: emit_empty, parent_record_order: Some(rng.next_u64()) });
+                let (b2, _) = encode(&perm, &EncodeOpts { version: v, emit_empty_parent_records: emit_empty, parent_record_order: Some(rng.next_u64()), split_parent_records: if rng.chance(1, 2) { Some(rng.next_u64()) } else { None } });
                 match drive::from_bytes(&b2) {
                     Ok(o2) => {
                         let obs2 = observe::walk(&o2, &ids, &mut out.events);
